@@ -2,12 +2,12 @@ SPECIFICATION Spec
 CONSTANTS
   Deviations <- AllDevs
   MaxNodes = 1
-  Worlds <- QuickWorlds
+  Worlds <- VecWorld
   Rich = FALSE
   NumIter = 2
+  EarlyStop = TRUE
   Sim = FALSE
   Fine = TRUE
   Mutant = "none"
-INVARIANT PropertyHolds
-INVARIANT Emit
+INVARIANT NeverDeviates
 CHECK_DEADLOCK FALSE
